@@ -67,7 +67,8 @@ enum Act {
     Mint { to: usize, amt: Amt },
     MintFrom { minter: usize, to: usize, amt: Amt },
     Transfer { from: usize, to: usize, amt: Amt },
-    /// expiration = current ledger + `exp` - 1 (exp 21: beyond the minimum temporary-entry TTL)
+    /// expiration = current ledger + `exp` - 1 (exp 21: beyond the minimum temporary-entry TTL);
+    /// 200 / 201 stand for 250,000 / 300,000 ledgers ahead (both more than two weeks)
     Approve { from: usize, spender: usize, amt: Amt, exp: u8 },
     TransferFrom { spender: usize, from: usize, to: usize, amt: Amt },
     Burn { from: usize, amt: Amt },
@@ -161,11 +162,12 @@ impl Scenario for C12 {
         let apairs: Vec<(usize, usize)> = if t { vec![(A, B), (B, C), (A, A)] } else { vec![(A, B)] };
         for (from, spender) in apairs {
             for amt in [Amt::Five, Amt::One, Amt::Zero, Amt::Neg, Amt::Max] {
-                for exp in [0u8, 1, 2, 3, 21] {
+                for exp in [0u8, 1, 2, 3, 21, 200, 201] {
                     // an allowance of exactly i128::MAX is an ordinary allowance
                     if amt == Amt::Max && exp != 3 { continue; }
                     if !t && (amt == Amt::One || (amt == Amt::Neg && exp != 1)) { continue; }
-                    if exp == 21 && amt != Amt::Five { continue; }
+                    if exp >= 21 && amt != Amt::Five { continue; }
+                    if exp >= 200 && (from, spender) != (A, B) { continue; }
                     v.push(Act::Approve { from, spender, amt, exp });
                 }
             }
@@ -200,6 +202,8 @@ impl Scenario for C12 {
             v.push(Act::Advance(2));
             // longer than the minimum temporary-entry TTL (16), shorter than a 20-ledger allowance
             v.push(Act::Advance(17));
+            // between the two far expirations (250,000 and 300,000 ledgers ahead)
+            v.push(Act::Advance(260_000));
         }
         v
     }
@@ -272,7 +276,7 @@ impl Scenario for C12 {
             Act::Approve { from, spender, amt, exp } => {
                 out.kind = "approve";
                 let x = resolve(m, *amt, *from, None);
-                let e = m.seq + *exp as u32 - 1;
+                let e = m.seq + match *exp { 200 => 250_001, 201 => 300_001, x => x as u32 } - 1;
                 let want = x >= 0 && !(x > 0 && e < m.seq);
                 let c = w.call(
                     &ctx.tok,
@@ -425,7 +429,7 @@ fn main() {
         let mut o = Opts::new(tier, if thorough { 7 } else { 4 });
         o.min_depth = 3;
         o.wall_cap_s = if thorough { 600.0 } else { 100.0 };
-        o.rule = "all sequences over mint (owner), mint_from (constructor minter, non-minter), transfer, approve (expiration = ledger-1, ledger, ledger+1, ledger+2, ledger+20), transfer_from, burn, burn_from with amounts chosen relative to the state {-1, 0, 1, 5, balance, balance+1, allowance, allowance+1, i128::MAX}, add/remove minter (incl. removing the owner's own minter role), set_admin / transfer_ownership, advance 1, 2 or 17 ledgers; accounts A, B, C; after every new state balance() of all accounts, allowance() of all 9 ordered pairs, is_minter, owner() and sum(balances) == minted - burned are compared with the reference token".into();
+        o.rule = "all sequences over mint (owner), mint_from (constructor minter, non-minter), transfer, approve (expiration = ledger-1, ledger, ledger+1, ledger+2, ledger+20, ledger+250000, ledger+300000), transfer_from, burn, burn_from with amounts chosen relative to the state {-1, 0, 1, 5, balance, balance+1, allowance, allowance+1, i128::MAX}, add/remove minter (incl. removing the owner's own minter role), set_admin / transfer_ownership, advance 1, 2, 17 or 260000 ledgers; accounts A, B, C; after every new state balance() of all accounts, allowance() of all 9 ordered pairs, is_minter, owner() and sum(balances) == minted - burned are compared with the reference token".into();
         (C12 { thorough }, o)
     });
 }
